@@ -915,7 +915,7 @@ class sptensor:
 
             if self.nnz < other.nnz:
                 [subsSelf, valsSelf] = self.find()
-                valsOther = other[subsSelf]
+                valsOther = np.atleast_1d(other[subsSelf])
             else:
                 [subsOther, valsOther] = other.find()
                 valsSelf = self[subsOther]
